@@ -11,6 +11,7 @@ import (
 	"path/filepath"
 	"sort"
 	"strings"
+	"sync"
 	"testing"
 
 	"github.com/elliotchance/gedcom/v39"
@@ -557,6 +558,39 @@ func check(d *doc) (fl *harness.Failure, nexp int, kinds []string) {
 			return harness.Failf("second-report-differs:"+kindOf(k), "warning %s reported x%d by the first call of Warnings() and x%d by the second call on the same document\nfirst: %v\nsecond: %v\nfile:\n%s", k, got[k], again[k], texts, textsAgain, text), nexp, kinds
 		}
 	}
+	// several callers at once, on a document whose caches are cold: each gets the same report
+	if len(text)%8 == 5 {
+		cold, cerr := gedcom.NewDocumentFromString(text)
+		if cerr == nil {
+			const callers = 8
+			reports := make([]gedcom.Warnings, callers)
+			start := make(chan struct{})
+			var wg sync.WaitGroup
+			for k := 0; k < callers; k++ {
+				wg.Add(1)
+				go func(k int) {
+					defer wg.Done()
+					defer func() { _ = recover() }()
+					<-start
+					reports[k] = cold.Warnings()
+				}(k)
+			}
+			close(start)
+			wg.Wait()
+			for k := 0; k < callers; k++ {
+				par, _, f := project(reports[k])
+				if f != nil {
+					return f, nexp, kinds
+				}
+				for key := range mergeKeys(got, par) {
+					if got[key] != par[key] {
+						return harness.Failf("parallel-report-differs:"+kindOf(key), "warning %s reported x%d by a single caller and x%d to one of %d callers that asked a freshly decoded document at the same time\nfile:\n%s", key, got[key], par[key], callers, text), nexp, kinds
+					}
+				}
+			}
+			kinds = append(kinds, "parallel-callers")
+		}
+	}
 	// a document that was changed through the public API after its warnings were reported is a
 	// document like any other: its report is the report of the same text decoded from nothing
 	// (which the clauses above judge on other cases)
@@ -819,7 +853,7 @@ func seq(n int) []int {
 
 func TestCheckWarnings(t *testing.T) {
 	s := harness.NewSub("warnings-sound-and-complete",
-		"random family graphs (1..7 people, 0..3 families, distinct roles inside a family, a sibling pair shares at most one family) with exact D Mon Y dates between about 1600 and 1975 (a fifth of the documents in an early century, years with one to four digits): sibling gaps from {0,1,2,3,30,200,269,270,280,281,400,1000} days, children born -400/-1/0/+1 days or 15-35 years relative to a parent, deaths at -10 days .. 130 years incl. 99.9/100.1, marriages at 10/15.9/16.1/25/60/99.9/100.1/104 years, baptisms/burials around birth/death, 0-3 SEX lines, unparsable dates in RESI/ENGA events; the multiset of (warning kind, people, dates) computed from the facts must equal the projection of Document.Warnings(), again on a second call after the views and similarities of the document were read, and before and after reordering records and children; for a quarter of the documents 1..2 edits through the public API follow (a person deleted, replaced by another under the same pointer, added as a child, a birth date changed, a HUSB/WIFE/CHIL line removed through DeleteNode or SetNodes) and the report must then be that of the same text decoded from nothing; non-trivial = at least one warranted warning and at least one candidate of another kind that is not warranted")
+		"random family graphs (1..7 people, 0..3 families, distinct roles inside a family, a sibling pair shares at most one family) with exact D Mon Y dates between about 1600 and 1975 (a fifth of the documents in an early century, years with one to four digits): sibling gaps from {0,1,2,3,30,200,269,270,280,281,400,1000} days, children born -400/-1/0/+1 days or 15-35 years relative to a parent, deaths at -10 days .. 130 years incl. 99.9/100.1, marriages at 10/15.9/16.1/25/60/99.9/100.1/104 years, baptisms/burials around birth/death, 0-3 SEX lines, unparsable dates in RESI/ENGA events; the multiset of (warning kind, people, dates) computed from the facts must equal the projection of Document.Warnings(), again on a second call after the views and similarities of the document were read, to each of 8 callers that ask a freshly decoded copy at the same time (an eighth of the documents), and before and after reordering records and children; for a quarter of the documents 1..2 edits through the public API follow (a person deleted, replaced by another under the same pointer, added as a child, a birth date changed, a HUSB/WIFE/CHIL line removed through DeleteNode or SetNodes) and the report must then be that of the same text decoded from nothing; non-trivial = at least one warranted warning and at least one candidate of another kind that is not warranted")
 	s.Rapid(t, harness.Share(harness.Pick(80000, 2000000)), 200, func(rt *rapid.T) {
 		d := genDoc(rt)
 		fl, nexp, kinds := check(d)
